@@ -4,9 +4,10 @@
   the three kinds, explicit del, collections) executed on `Cello.Heap` (`gcMark`, `sweep`).
   Objects are named by small integers; the model gives object `i` the synthetic address `addrOf i` (the marker only
   depends on alignment, the pointer bounds, and which words are registered addresses).
-  An exact-mode collection is `gcMarkFrom` (from the mark bits an `xraise` left, unless `GC_Mark` clears them first:
-  `CelloGen.GcMark.markClearsFirst`) + `sweep` + `release`; `xraise` is `GOp.raise` (a prefix of `markEvents`); `xbox` builds a Box
-  outside its ownership contract; `newraw` an unregistered container.
+  An exact-mode collection is `gcMarkFrom` (from no bits: `GC_Mark` clears them first, `clearFirstNow`; in a tree without
+  `GC_Unmark` from the bits an `xraise` left) + `sweep` + `release`; `xraise` is `GOp.raise` (a prefix of `markEvents`); `xbox` builds a Box
+  outside its ownership contract; `newraw` an unregistered container; kind `W` is a Thread object other than `current(Thread)` (`.thr`: its
+  table is traced like that of every Thread object, `Cfg.foreignTls`); the 8-slot probe is `ProbeD` (its destructor calls `del(NULL)`: `owns = [0]`).
 -/
 import Cello.Heap
 import Cello.HeapRec
@@ -45,9 +46,9 @@ def Tok.isObj : Tok → Bool | .obj _ => true | _ => false
 def Tok.isObjOrNil : Tok → Bool | .obj _ => true | .nil => true | _ => false
 
 /-- object kinds: P plain struct, M probe with its own Mark instance, R Ref, B Box, A Array, L List, T Table, E Tree,
-    H heap Tuple.  (The op-file letters U / F are T / E constructed with Ref keys.) -/
+    H heap Tuple, W a Thread object (not `current(Thread)`: `new(Thread)`, never started).  (The op-file letters U / F are T / E constructed with Ref keys.) -/
 inductive Kind where
-  | P | M | R | B | A | L | T | E | H
+  | P | M | R | B | A | L | T | E | H | W
 deriving Repr, Inhabited, DecidableEq
 
 def Kind.isWords : Kind → Bool | .P | .M | .R | .B => true | _ => false
@@ -138,7 +139,7 @@ def MObj.kvs (o : MObj) : List (List Word × List Word) :=
     CURRENT element / key / value types -/
 def toObj (id : Nat) (o : MObj) : Obj :=
   match o.kind with
-  | .P => .raw "Probe" ([id, canaryOf id] ++ o.el.toList.map tokWord)
+  | .P => .raw (if o.k = 8 then "ProbeD" else "Probe") ([id, canaryOf id] ++ o.el.toList.map tokWord)
   | .M => .tup "ProbeM" ((o.el.toList.filter (· ≠ Tok.nil)).map tokWord)
   | .R => .raw "Ref" (o.el.toList.map tokWord)
   | .B => .raw "Box" (o.el.toList.map tokWord)
@@ -147,6 +148,7 @@ def toObj (id : Nat) (o : MObj) : Obj :=
   | .T => .cont "Table" (mapElems o.kt.name o.vt.name o.kvs)
   | .E => .cont "Tree" (mapElems o.kt.name o.vt.name o.kvs)
   | .H => .tup "Tuple" (o.el.toList.map tokWord)
+  | .W => .thr "Thread" (.cont "Table" (mapElems o.kt.name o.vt.name o.kvs))     -- `new(Thread)`: tls = Table(String, Ref)
 
 mutual
 /-- structural equality of representations (for the driver's cross-check of the re-typing ops) -/
@@ -242,7 +244,7 @@ def kindOfLetter (ks : String) : Option (Kind × Ety × Ety) :=
   | "P" => some (.P, .R, .R) | "M" => some (.M, .R, .R) | "R" => some (.R, .R, .R) | "B" => some (.B, .R, .R)
   | "A" => some (.A, .R, .R) | "L" => some (.L, .R, .R)
   | "T" => some (.T, .I, .R) | "U" => some (.T, .R, .R) | "E" => some (.E, .I, .R) | "F" => some (.E, .R, .R)
-  | "H" => some (.H, .R, .R) | _ => none
+  | "H" => some (.H, .R, .R) | "W" => some (.W, .S, .R) | _ => none
 
 def parseKind (s : String) : Option ((Kind × Ety × Ety) × Bool) :=
   let (ks, rf) := if s.length = 2 ∧ s.back = '!' then ((s.take 1).toString, true) else (s, false)
@@ -309,7 +311,7 @@ def MState.rawTok (st : MState) : Tok → Bool
 /-- the blocks one collection releases: the pending list, plus what the destructors of pending Boxes delete (`Cello.Heap.release`);
     when no pending item owns anything the release loop finalises exactly the pending list (cross-checked by `R rel=`) -/
 def releasedAddrs (h h1 : Heap) (pending : List Addr) : List Addr × String :=
-  let owners := pending.any fun a => !(h.ownsAt a).isEmpty
+  let owners := pending.any fun a => (h.ownsAt a).any (· != 0)      -- `del(NULL)` is a no-op (`remPtr_null`)
   if owners then ((release h h1 pending).finalised, "full")
   else if pending.length ≤ 1500 then
     let f := (release h h1 pending).finalised
@@ -320,7 +322,7 @@ def releasedAddrs (h h1 : Heap) (pending : List Addr) : List Addr × String :=
     does not clear them first), `GC_Sweep` with its release loop; returns the new state and the observation text -/
 def MState.exactCollect (st : MState) (words : List Word) (tag : String) : MState × List String :=
   let h := st.heap
-  let started := if CelloGen.GcMark.markClearsFirst then [] else st.stale.map addrOf
+  let started := if clearFirstNow then [] else st.stale.map addrOf
   let m := gcMarkFrom hashSet Cfg.current h (threadObj st) words (seed hashSet started)
   let marked := st.objs.keys.filter (fun i => m.contains (addrOf i))
   let (h1, pending) := sweep hashSet h m
@@ -534,6 +536,29 @@ def MState.step (st : MState) (w : List String) : MState × List String :=
       if k ≥ nTls || (st.tls[k]?).join.isNone then bad st
       else ({ st with tls := st.tls.setIfInBounds k none }, ["O ok"])
     | none => bad st
+  | ["wset", ids, ks, toks] =>
+    match (parseLong ids).bind natOf, (parseLong ks).bind natOf, parseTok toks with
+    | some id, some k, some t =>
+      match st.objs[id]? with
+      | some o =>
+        if o.kind != .W || k ≥ nTls || !st.tokOk t || !t.isObjOrNil then bad st
+        else (st.mapSet id (k : Int) t, ["O ok"])
+      | none => bad st
+    | _, _, _ => bad st
+  | ["wrem", ids, ks] =>
+    match (parseLong ids).bind natOf, parseLong ks with
+    | some id, some key =>
+      match st.objs[id]? with
+      | some o =>
+        if o.kind != .W then bad st else
+        match o.mapFind key with
+        | none => bad st
+        | some i =>
+          let last := o.el.size - 1
+          let o' := { o with el := (o.el.setIfInBounds i (o.el[last]!)).pop, key := (o.key.setIfInBounds i (o.key[last]!)).pop }
+          ({ st with objs := st.objs.insert id o' }, ["O ok"])
+      | none => bad st
+    | _, _ => bad st
   | ["root", js, toks] =>
     match (parseLong js).bind natOf, parseTok toks with
     | some j, some t =>
@@ -642,7 +667,7 @@ def MState.step (st : MState) (w : List String) : MState × List String :=
         let ts := toks.map parseTok
         if o.kind != .M || ts.any (fun t => match t with | some t => !st.tokOk t | none => true) then bad st else
         let words := ts.filterMap (·.map tokWord)
-        let started := if CelloGen.GcMark.markClearsFirst then [] else st.stale.map addrOf
+        let started := if clearFirstNow then [] else st.stale.map addrOf
         let events := markEvents Cfg.current st.heap (threadObj st) words started
         match events.idxOf? (addrOf id) with
         | some k =>
@@ -683,6 +708,19 @@ def MState.step (st : MState) (w : List String) : MState × List String :=
     if !st.full then bad st else
     let (st', live) := st.checkpoint
     ({ st' with nCollect := st.nCollect + 1, nFreed := st.nFreed + (st.objs.size - st'.objs.size) }, [s!"O c live={setText live}"])
+  | ["craise", ids] =>
+    -- full mode: the real `GC_Mark` is left by an exception thrown by the Mark instance of the reachable ProbeM `id`; no sweep.  The bits
+    -- that stay are not modelled here (the stack scan is conservative): the next `GC_Mark` clears them first (`clearFirstNow`).
+    if !st.full then bad st else
+    match (parseLong ids).bind natOf with
+    | some id =>
+      match st.objs[id]? with
+      | some o =>
+        if o.kind != .M then bad st
+        else if !((st.markedIds true []).1.contains id) then bad st
+        else (st, ["O craise raised"])
+      | none => bad st
+    | none => bad st
   | ["churn", ns] =>
     match (parseLong ns).bind natOf with
     | some n =>
